@@ -145,6 +145,8 @@ def extra(repo, reg, tier, seed):
         ("fortls.main", "vars"),
         ("fortls.parsers.internal.base.FortranObj.links_back", "getattr"),  # field name is one of three literals
         ("fortls.parsers.internal.parser.eval_pp_expr.ev", "call of Subscript"),  # table of operator.* functions
+        # def_regexes holds compiled patterns and the `substitute` closures made by expand_func_macro in the same function
+        ("fortls.parsers.internal.parser.preprocess_file", "call of local value def_regex"),
     }
     bad_dyn = [(q, w, wh) for q, w, wh in dyn if (q, w) not in allowed_dyn and not q.startswith("fortls.debug")]
     items.append(Item("C17/package/effects.no_dynamic_dispatch", "refuted" if bad_dyn else "proved", "frame-analysis",
